@@ -205,7 +205,14 @@ def trigger_event_contract(world, obj, target, names, internal, unhandled_result
         r = smt.fresh('handler_ret', V)
         c.ctx.assume(r != atom(worlds.NOT_HANDLED))
         c._ret = r
-        log_append(c, 'g', 'disp', event=c.a.event, ns=c.a.namespace, args=c.vals['args'], ret=r)
+        log_append(c, 'g', 'disp', event=c.a.event, ns=c.a.namespace, args=c.vals['args'], ret=r, raised=NONE, err=NONE)
+
+    def disp_raise(cls):
+        def upd(c):
+            err = smt.fresh('error_args', V)
+            c._err = err
+            log_append(c, 'g', 'disp', event=c.a.event, ns=c.a.namespace, args=c.vals['args'], ret=NONE, raised=atom('exc:' + cls), err=err)
+        return upd
 
     summary = [
         Case('dispatched', when=lambda c: has_target(c, obj, names), update=disp_update, result=lambda c: S(c._ret)),
@@ -213,8 +220,8 @@ def trigger_event_contract(world, obj, target, names, internal, unhandled_result
     ]
     for cls in ['TypeError', 'sio.ConnectionRefusedError', 'AppException']:
         summary.append(Case('dispatched-raises-' + cls, when=lambda c: has_target(c, obj, names), kind='raise', exc=cls,
-                            update=disp_update,
-                            exc_fields=(lambda c: {'error_args': S(smt.fresh('error_args', V))}) if cls.endswith('RefusedError') else None))
+                            update=disp_raise(cls),
+                            exc_fields=(lambda c: {'error_args': S(c._err)}) if cls.endswith('RefusedError') else None))
 
     return Contract(
         target=target, schema=world, self_obj=obj, also=also,
